@@ -284,3 +284,64 @@ func nonEmpty(ss []string) []string {
 	}
 	return out
 }
+
+// encoding/json for the repository's own document types: an opaque token standing for a deep
+// copy of the marshalled value ("the JSON round trip is the identity on these documents";
+// not true for strings that are not valid UTF-8 — outside every claim).
+type jsonDoc struct {
+	t types.Type
+	v value
+}
+
+var jsonStore []jsonDoc
+
+const jsonMagic = "{\"gosym-json\":"
+
+func init() {
+	resetHooks = append(resetHooks, func() { jsonStore = nil })
+	externals["encoding/json.Marshal"] = func(fr *frame, args []value) value {
+		noteStub("encoding/json Marshal/Unmarshal: opaque token for a deep copy of the document (round trip = identity)")
+		d := args[0].(iface)
+		jsonStore = append(jsonStore, jsonDoc{d.t, deepCopy(d.v, map[*value]*value{})})
+		return tuple{strToVals(fmt.Sprintf("%s%08d}", jsonMagic, len(jsonStore)-1)), iface{}}
+	}
+	externals["encoding/json.Unmarshal"] = func(fr *frame, args []value) value {
+		noteStub("encoding/json Marshal/Unmarshal: opaque token for a deep copy of the document (round trip = identity)")
+		b, _ := args[0].([]value)
+		var sb strings.Builder
+		for _, x := range b {
+			c, ok := x.(uint8)
+			if !ok {
+				panic(unsupported("json.Unmarshal of symbolic bytes"))
+			}
+			sb.WriteByte(c)
+		}
+		s := sb.String()
+		if !strings.HasPrefix(s, jsonMagic) {
+			return mkError(fr, "json: cannot unmarshal (not a document written by this program)")
+		}
+		var id int
+		fmt.Sscanf(s[len(jsonMagic):], "%d", &id)
+		if id < 0 || id >= len(jsonStore) {
+			return mkError(fr, "json: bad document token")
+		}
+		doc := jsonStore[id]
+		target := args[1].(iface)
+		pt, ok := target.t.Underlying().(*types.Pointer)
+		if !ok {
+			return mkError(fr, "json: Unmarshal(non-pointer)")
+		}
+		src := doc.v
+		st := doc.t
+		// the marshalled value may itself have been a pointer to the document
+		if sp, ok := st.Underlying().(*types.Pointer); ok {
+			st = sp.Elem()
+			src = *(src.(*value))
+		}
+		if !types.Identical(pt.Elem(), st) {
+			panic(unsupported(fmt.Sprintf("json round trip between different types %s and %s", st, pt.Elem())))
+		}
+		*(target.v.(*value)) = deepCopy(src, map[*value]*value{})
+		return iface{}
+	}
+}
